@@ -20,10 +20,10 @@ def gen_cases(chk, table, n):
     for i in range(n):
         rng = chk.rng('c10/%d' % i)
         kind = rng.random()
-        g = G.ModGen(rng, table, text_safe=True, canon_labels=rng.random() < 0.5)
+        g = G.ModGen(rng, table, text_safe=True, canon_labels=rng.random() < 0.5, split_ctx=0.5, temp_names=0.35)
         if kind < 0.55:
             cases.append(g.case(nmodules=1, n_items=rng.choice([0, 2, 6, 12]), with_exec=True))
-        elif kind < 0.75:
+        elif kind < 0.8:
             cases.append(g.case(nmodules=rng.choice([2, 3]), n_items=rng.choice([1, 4, 8]), with_exec=True))
         else:
             cases.append(g.case(nmodules=rng.choice([1, 2]), n_items=rng.choice([3, 10, 25]), with_exec=False))
@@ -36,6 +36,9 @@ def judge(case, d, model):
     info = {}
     if d.get('build', '').startswith('REJECT') or d.get('CRASH') == 'exit3' or (len(d) <= 1 and 'CRASH' in d):
         return [('gen:rejected', 'API rejected the generated module: ' + d.get('build', ''))], info
+    if d.get('build', '').startswith('SEGERR'):
+        # the context under test could not be put together with the binary writer/reader: that is C11's business
+        return [('gen:setup', 'binary I/O failed while combining separately built modules: ' + d.get('build', ''))], info
     t0 = K.text_of(d, 'T0')
     if 'CRASH' in d:
         last = [k for k in d if k != 'CRASH'][-1]
@@ -68,17 +71,25 @@ def judge(case, d, model):
             bad.append(('not-a-fixpoint', 'the second print/scan round changes the text again (%s)' % d.get('SC2')))
         if 'X0' in d and d.get('X2') != d.get('X0'):
             bad.append(('exec-differs-after-scan', 'execution differs after the text round trip: %s vs %s' % (d.get('X0'), d.get('X2'))))
+        if d.get('FR2', 'ok') != 'ok' and d.get('FR0', 'ok') == 'ok':
+            bad.append(('temp-name-clash-after-scan', 'after the scan the next temporary name is already in use: %s' % d.get('FR2')))
     # tie: model printer / scanner against the implementation
     if 'SKIPPED' not in model and 'SKIPPED' not in d:
         m0 = K.text_of(model, 'T0')
         if model.get('DRIVER-ERROR'):
             bad.append(('tie:driver', 'model driver error'))
+        elif m0 != t0 and 'newctx' in case:
+            # the context under test was put together by the binary reader (C11): not a statement about MIR_output
+            return [('gen:setup', 'the combined context does not print as described')], info
         elif m0 != t0:
             bad.append(('tie:printer', 'model printer and MIR_output produce different text'))
         elif (model.get('SC') == 'ok') != (sc == 'ok'):
             bad.append(('tie:scanner-accepts', 'model scanner and MIR_scan_string disagree on acceptance: %s vs %s' % (model.get('SC'), sc)))
         elif sc == 'ok' and K.text_of(model, 'T2', m0) != K.text_of(d, 'T2', t0):
             bad.append(('tie:scanner', 'model scanner and MIR_scan_string build different modules from the same text'))
+        elif sc == 'ok' and 'TN2' in model and d.get('TN2') != model.get('TN2'):
+            bad.append(('tie:temp-counters', 'last_temp_item_num after the scan differs from the model (process_reserved_name): '
+                        '%s vs %s' % (d.get('TN2'), model.get('TN2'))))
     return bad, info
 
 
@@ -120,6 +131,13 @@ def run(chk):
             rejected += 1
             chk.dist('outcome', 'rejected-by-api')
             continue
+        if any(s == 'gen:setup' for s, _ in bad):
+            chk.dist('outcome', 'setup-failed (binary reader, see C11)')
+            continue
+        chk.dist('context', 'modules built in several contexts, read into one (overlapping label numbers)' if 'newctx' in case
+                 else 'several modules, one context' if case.count('endmodule') > 1 else 'one module')
+        if a.get('TN2', '').strip('0,'):
+            chk.dist('temp_counters', 'some module counter restored to non-zero by the scan')
         if 'TAST' in m:
             chk.dist('theorem_conclusion_on_model', 'scan_ctx (p_ctx ms) = map tnorm_module ms' if m['TAST'] == 'tnorm'
                      else 'AST differs from tnorm (labels not in first-occurrence order, or outside wf_text)')
@@ -174,7 +192,7 @@ def replay(chk, path):
     r1, rm = run_cases(exes, [case])
     bad, info = judge(case, r1[0], rm[0])
     print('case:', case)
-    for k in ('build', 'SC', 'T2', 'SC2', 'T3', 'X0', 'X2', 'CRASH'):
+    for k in ('build', 'SC', 'T2', 'TN2', 'SC2', 'T3', 'X0', 'X2', 'FR0', 'FR2', 'CRASH'):
         v = r1[0].get(k, '-')
         print('  impl.%s = %s   model.%s = %s' % (k, v[:100], k, rm[0].get(k, '-')[:100]))
     for s, w in bad:
